@@ -275,6 +275,8 @@ def _lam_conditions(prog, fi, tF, tX, tP, tolnames):
     stores = [st for st in it.stores if st["array"] == lab]
     atoms = []        # (ast, positive)
     def flat(c, pol):
+        while isinstance(c, ast.Call) and isinstance(c.func, ast.Name) and c.func.id == "bool" and len(c.args) == 1 and not c.keywords:
+            c = c.args[0]           # bool(<test>) is the test
         if pol and isinstance(c, ast.BoolOp) and isinstance(c.op, ast.And):
             for v in c.values:
                 flat(v, True)
